@@ -82,6 +82,8 @@ type Proc struct {
 	LemmaFor  map[string]map[string]bool
 	SliceOut  map[string][]string // property -> symbols withheld from the obligations of exactly that property
 	FactFor   map[string]map[string]bool // assert label -> obligation labels that may use its fact
+	OpaqueFor map[string]map[string]bool // defined spec function -> obligation labels that see it uninterpreted
+	Focus     map[string]map[string]bool // obligation label -> labels of the only quantified facts it is given
 }
 
 func (p *Proc) NewBlock(label string) *Block {
@@ -98,6 +100,11 @@ func (b *Block) Assign(c *Cell, e Expr) {
 }
 func (b *Block) Havoc(c *Cell)   { b.Cmds = append(b.Cmds, Cmd{Kind: CHavoc, Cell: c}) }
 func (b *Block) Assume(e Expr)   { b.Cmds = append(b.Cmds, Cmd{Kind: CAssume, E: e}) }
+
+// AssumeL: an assumption that carries the label of the contract clause it comes from (scope / focus)
+func (b *Block) AssumeL(e Expr, label string) {
+	b.Cmds = append(b.Cmds, Cmd{Kind: CAssume, E: e, Name: label})
+}
 func (b *Block) Assert(e Expr, name string, props []string) {
 	b.Cmds = append(b.Cmds, Cmd{Kind: CAssert, E: e, Name: name, Props: props})
 }
@@ -225,6 +232,10 @@ func (o *Obligation) Query(models bool) string {
 							continue
 						}
 					}
+					if focus := o.gen.p.Focus[clauseLabel(o.Name)]; focus != nil && !focus[o.gen.lineLabel[i]] &&
+						(strings.Contains(lines[i], "(forall ") || strings.Contains(lines[i], "(exists ")) {
+						continue
+					}
 					if len(o.Props) == 1 {
 						withheld := false
 						for _, sym := range o.gen.p.SliceOut[o.Props[0]] {
@@ -287,6 +298,15 @@ func (o *Obligation) Query(models bool) string {
 	for i, l := range lines {
 		if !keep[i] {
 			continue
+		}
+		if o.gen != nil && len(o.gen.p.OpaqueFor) > 0 && strings.HasPrefix(l, "(define-fun ") {
+			if name, sig, ok := parseFunSig(l); ok && o.gen.p.OpaqueFor[name][clauseLabel(o.Name)] {
+				args := make([]string, len(sig.Args))
+				for j, a := range sig.Args {
+					args[j] = string(a)
+				}
+				l = fmt.Sprintf("(declare-fun %s (%s) %s)", name, strings.Join(args, " "), sig.Ret)
+			}
 		}
 		if o.ExpectSat && strings.HasPrefix(l, "(assert") && (strings.Contains(l, "(forall ") || strings.Contains(l, "(exists ")) {
 			continue // canaries: quantified facts are dropped so that a solver can answer sat
@@ -1028,7 +1048,9 @@ func GenVCs(p *Proc, prelude []string) (obls []*Obligation, err error) {
 				st[c.Cell.Name] = nv
 				g.rangeFact(c.Cell, nv)
 			case CAssume:
+				g.curFactLabel = c.Name
 				g.fact(reach, c.E, st)
+				g.curFactLabel = ""
 			case CAssert:
 				g.obligation(reach, c, st)
 			}
